@@ -115,9 +115,9 @@ var payloads = []payload{
 	{name: "crlf-header", h: "x\r\nContent-Type: text/html\r\n\r\n<script>§</script>", f: fReqOnly},
 }
 
-func canary(pos string, pi, serial int) string { return fmt.Sprintf("Cnry%s%02dx%d", pos, pi, serial) }
+func canary(pos string, pi, serial int) string { return fmt.Sprintf("Cnry%s%02dx%de", pos, pi, serial) }
 func inertTok(pos string, pi, serial int) string {
-	return fmt.Sprintf("Inrt%s%02dx%d", pos, pi, serial)
+	return fmt.Sprintf("Inrt%s%02dx%de", pos, pi, serial)
 }
 
 func (p payload) inst(pos string, pi, serial int) dual {
